@@ -177,16 +177,17 @@ class Parser(object):
 
     def _is_type_sizer_compatible(self, typename):
         integers = {type_ + width for type_ in 'ui' for width in ['8', '16', '32', '64']}
+        if typename in integers:
+            return True
+        node = self.typedecls.get(typename)
         seen = set()
-        while typename not in integers:
-            if typename in seen:
-                return False
-            seen.add(typename)
-            definition = self.typedecls.get(typename)
-            if not isinstance(definition, model.Typedef):
-                return False
-            typename = definition.type_name
-        return True
+        while isinstance(node, model.Typedef) and id(node) not in seen:
+            seen.add(id(node))
+            if node.type_name in integers:
+                return True
+            # a typedef from an included file refers to names of ITS includes: follow the resolved definition
+            node = node.definition if node.definition is not None else self.typedecls.get(node.type_name)
+        return False
 
     def p_specification(self, t):
         '''specification : definition_list'''
